@@ -47,8 +47,9 @@ example : decimal 1552305600000000000 = [49, 53, 53, 50, 51, 48, 53, 54, 48, 48,
     decimal (-42) = [45, 52, 50] := by decide +kernel
 
 /-- the second disjunct of `fmtRejectsDigits` is needed: the expression of `MM.DD.YYYY` (LQL format 53) does match a run
-of ten digits (its `.` is unescaped), it is the layout that then fails -/
-example : (lqlFmts[53]?.bind (·.rx)).map (fun rx => find rx [48, 49, 48, 50, 48, 51, 50, 48, 48, 54]) =
+of ten digits (its `.` is unescaped), it is the layout that then fails (the format is looked up by its text, not by its index) -/
+example : ((lqlFmts.find? (fun cf => cf.fmt == [77, 77, 46, 68, 68, 46, 89, 89, 89, 89])).bind (·.rx)).map
+      (fun rx => find rx [48, 49, 48, 50, 48, 51, 50, 48, 48, 54]) =
     some (some [48, 49, 48, 50, 48, 51, 50, 48, 48, 54]) := by decide +kernel
 
 /-- one past `int64` is not an integer literal (rejected, as `strconv.ParseInt` does) -/
@@ -470,10 +471,10 @@ theorem lql_T_literal_is_noon :
 theorem lql_formats_see_literal_as_written : C20.lqlFormatsSeeLowerCased = false := by decide
 
 /-- what the defect was (kept as a statement about the model with the switch turned back on): lower-casing turns `T` into
-`t`, the ISO formats no longer match, and `YYYY-MM-DD` (format 52) claims the date part — midnight instead of noon. -/
+`t`, the ISO formats no longer match, and `YYYY-MM-DD` (looked up by its text; format 52 today) claims the date part — midnight instead of noon. -/
 theorem lowercasing_would_give_midnight :
     parseLql { gcfg with fmtLower := true } lqlFmts now0 [50, 48, 49, 57, 45, 48, 51, 45, 49, 49, 84, 49, 50, 58, 48, 48, 58, 48, 48, 90]
-      = .abs 52 ⟨2019, 3, 11, 0, 0, 0, 0, .dflt⟩ := by decide +kernel
+      = .abs (C20.lqlFormats.idxOf [89, 89, 89, 89, 45, 77, 77, 45, 68, 68]) ⟨2019, 3, 11, 0, 0, 0, 0, .dflt⟩ := by decide +kernel
 
 /-- upper-case relative literals and constants are still accepted (the lower-cased text is kept for them): `-90M`, `WEEK` -/
 theorem relative_and_constants_case_insensitive :
